@@ -43,6 +43,15 @@ def run_case(case, rec, cid):
         for _ in range(abs(n)):
             acc = acc + step
         out["nsum"], out["muleq"] = proj_dur(acc), bool(n * a == acc)
+        # the same n-fold sum written with +=, starting from the operand itself (an alias): the operand must be unchanged
+        if n >= 1:
+            acc2 = a
+            for _ in range(n - 1):
+                acc2 += a
+            out["nsum2"] = proj_dur(acc2)
+        else:
+            out["nsum2"] = proj_dur(acc)
+        out["aafter"] = proj_dur(a)
         out["amb"], out["apnb"], out["subeq"] = proj_dur(a - b), proj_dur(a + (-1 * b)), bool(a - b == a + (-1 * b))
         out["cmp"] = [bool(a == b), bool(a != b), bool(a < b), bool(a <= b), bool(a > b), bool(a >= b)]
         out["ha"], out["hb"] = hid(a), hid(b)
